@@ -400,7 +400,7 @@ def header(ctx, prog, viol):
 
 NATIVE_D = r'''
 use super::*;
-struct VS { reg: mio::Registration, set: mio::SetReadiness, writes: usize, accepted: Vec<u8>, block_first: usize }
+struct VS { reg: mio::Registration, set: mio::SetReadiness, writes: usize, accepted: Vec<u8>, block_first: usize, short_first: usize }
 impl std::io::Read for VS { fn read(&mut self, _: &mut [u8]) -> std::io::Result<usize> { Err(std::io::Error::new(std::io::ErrorKind::WouldBlock, "wb")) } }
 impl std::io::Write for VS {
     fn write(&mut self, b: &[u8]) -> std::io::Result<usize> {
@@ -410,6 +410,10 @@ impl std::io::Write for VS {
             let _ = self.set.set_readiness(mio::Ready::empty());
             let _ = self.set.set_readiness(mio::Ready::writable());
             return Err(std::io::Error::new(std::io::ErrorKind::WouldBlock, "wb"));
+        }
+        if self.writes <= self.block_first + self.short_first && b.len() > 3 {
+            // a short write that is no sign of a full transport (Write::write may always do this): the socket stays writable, no new edge
+            self.accepted.extend_from_slice(&b[..3]); return Ok(3);
         }
         self.accepted.extend_from_slice(b); Ok(b.len())
     }
@@ -424,11 +428,11 @@ impl crate::IoStream for VS {}
 #[test]
 fn verif_replay_c01d() {
     let mut bad: Vec<String> = Vec::new();
-    for block_first in 0..3usize {
+    for (block_first, short_first) in [(0usize, 0usize), (1, 0), (2, 0), (0, 1), (0, 2), (1, 1)].iter().cloned() {
         let mut io = IoLoop::new(crate::ConnectionTuning::default()).unwrap();
         io.connection_timeout = Some(std::time::Duration::from_millis(400));
         let (reg, set) = mio::Registration::new2();
-        let mut stream = VS { reg, set: set.clone(), writes: 0, accepted: Vec::new(), block_first };
+        let mut stream = VS { reg, set: set.clone(), writes: 0, accepted: Vec::new(), block_first, short_first };
         // as IoLoop::start does for a plain TCP stream: writable interest only, nothing written yet
         io.poll.register(&stream, STREAM, mio::Ready::writable(), mio::PollOpt::edge()).unwrap();
         set.set_readiness(mio::Ready::writable()).unwrap();
@@ -438,7 +442,7 @@ fn verif_replay_c01d() {
             false,
             |io: &IoLoop, _st: &()| !io.inner.has_data_to_write());
         let ok = r.is_ok() && stream.accepted == b"AMQP\x00\x00\x09\x01";
-        if !ok { bad.push(format!("would-block-x{}:result={}:accepted={}", block_first, match &r { Ok(()) => "Ok".to_string(), Err(e) => format!("{:?}", e) }, stream.accepted.len())); }
+        if !ok { bad.push(format!("would-block-x{}:short-x{}:result={}:accepted={}", block_first, short_first, match &r { Ok(()) => "Ok".to_string(), Err(e) => format!("{:?}", e) }, stream.accepted.len())); }
     }
     // data is pending when the loop wakes up, the writable event flushes all of it (no would-block), and a later event of the same batch
     // queues more - sealed or not: the loop must get round to writing that as well (edge-triggered: only a re-registration re-arms)
@@ -449,7 +453,7 @@ fn verif_replay_c01d() {
             let mut io = IoLoop::new(crate::ConnectionTuning::default()).unwrap();
             io.connection_timeout = Some(std::time::Duration::from_millis(300));
             let (reg, set) = mio::Registration::new2();
-            let mut stream = VS { reg, set: set.clone(), writes: 0, accepted: Vec::new(), block_first: 0 };
+            let mut stream = VS { reg, set: set.clone(), writes: 0, accepted: Vec::new(), block_first: 0, short_first: 0 };
             io.poll.register(&stream, STREAM, mio::Ready::readable() | mio::Ready::writable(), mio::PollOpt::edge()).unwrap();
             let (oreg, oset) = mio::Registration::new2();
             io.poll.register(&oreg, mio::Token(7), mio::Ready::readable(), mio::PollOpt::edge()).unwrap();
@@ -597,6 +601,11 @@ fn verif_replay_c01() {
 }
 '''
 
+
+# the write loop's contract is with an edge-triggered poll loop: its counterexamples are replayed against the byte-level scripts and against
+# the real poll loop (lost wake-ups show only there)
+NATIVE_WRITE_ONLY = NATIVE
+NATIVE = NATIVE + NATIVE_D.replace('use super::*;', '', 1)
 
 if __name__ == '__main__':
     main('C01', body)
